@@ -274,6 +274,8 @@ def pyCmp : CmpOp → Val → Val → R Val
   | .ge, .int a, .int b => .ok (.bool (a ≥ b))
   | .isIn, .str k, .dict d => .ok (.bool (aget k d).isSome)
   | .notIn, .str k, .dict d => .ok (.bool (!(aget k d).isSome))
+  | .isIn, .none, .dict _ => .ok (.bool false)          -- `None in d`: a dict of the fragment has `str` keys
+  | .notIn, .none, .dict _ => .ok (.bool true)
   | .isIn, x, .list l => (ofOpt (memV x l)).bind fun r => .ok (.bool r)
   | .notIn, x, .list l => (ofOpt (memV x l)).bind fun r => .ok (.bool (!r))
   | .isIn, x, .tuple l => (ofOpt (memV x l)).bind fun r => .ok (.bool r)
@@ -286,6 +288,7 @@ def pyCmp : CmpOp → Val → Val → R Val
   rw [pyCmp]
 @[simp] theorem pyCmp_gt (a b : Int) : pyCmp .gt (.int a) (.int b) = .ok (.bool (a > b)) := rfl
 @[simp] theorem pyCmp_lt (a b : Int) : pyCmp .lt (.int a) (.int b) = .ok (.bool (a < b)) := rfl
+@[simp] theorem pyCmp_none_in_dict (d : List (Str × Val)) : pyCmp .isIn .none (.dict d) = .ok (.bool false) := rfl
 @[simp] theorem pyCmp_in_dict (k : Str) (d : List (Str × Val)) :
     pyCmp .isIn (.str k) (.dict d) = .ok (.bool (aget k d).isSome) := rfl
 @[simp] theorem pyCmp_notIn_dict (k : Str) (d : List (Str × Val)) :
